@@ -6,16 +6,34 @@ TR = ['C17_Refused', 'C17_RefusedOutput', 'C17_AsIfNeverSent']
 
 
 def run(tier):
-    f = vise.Family(PID, tier, MC, TR, ['nav', 'ends', 'scope'], modes=('L', 'P'))
+    f = vise.Family(PID, tier, MC, TR, ['nav', 'ends', 'scope'], modes=('L', 'P'), matcher=vise.known_matcher(PID))
+    f.pairs_env = {'VERIF_KEPT_INSERT': '1'}     # histories with refused inputs also through a kept flushing persister
     f.out.assumptions = ['input classes are computed by the harness from the documented pattern ^\\+?[a-zA-Z0-9].*$ and the 255-byte limit, independently of vm.ValidInput',
                          'paired runs use the same external-result schedule (indexed by accepted request and call number)']
     t = f.thorough
+    f.out.stage('known-finding canonical case'); kept_case(f)
     f.out.stage('A model check'); f.model_check(6 if t else 4)
     f.out.stage('B+C model histories (refused inputs at every position) on the real engine'); f.replay_model(5 if t else 3)
     f.out.stage('C random programs with junk inputs'); f.random(300 if t else 40, 30 if t else 20, 14, 'LP')
     f.out.stage('C paired runs: history with refused inputs inserted vs without'); f.pairs_stage(80 if t else 12, 12, 10)
     return f.finish('Refused inputs (BAD, LONG) at every position of every model history to the bound; random insertion of refused inputs into random '
                     'histories with transcript comparison, long-lived and persisted mode over mem / fs / pg-fake;')
+
+
+def kept_case(f):
+    """canonical case of KF-kept-persister-after-overlong-input: two histories through one flushing persister"""
+    import json, os
+    for k in core.known_for(PID):
+        case = json.load(open(os.path.join(core.VERIF, k['canonical_case'])))
+        pp = os.path.join(f.d, 'kc_prog.json'); json.dump(case['program'], open(pp, 'w'))
+        hp = os.path.join(f.d, 'kc_hists.ndjson')
+        open(hp, 'w').write(''.join(json.dumps(h) + '\n' for h in case['histories']))
+        tr = os.path.join(f.d, 'kc_pairs.ndjson')
+        core.run_harness(['vise-pairs-hist', pp, hp, tr, 'mem', 'pairall'])
+        f.validate(tr, 'canonical case of ' + k['id'], lambda ev: dict(program=case['program'], history=case['histories'][1], pair=dict(kind='insert', store='mem', partner=case['histories'][0])))
+        if k['id'] not in f.out.known_hit:
+            f.out.cov.setdefault('known_findings_not_reproduced', []).append(k['id'])
+            core.log('note: known finding %s no longer reproduces on its canonical case (fixed?)' % k['id'])
 
 
 def replay(path):
